@@ -3,6 +3,24 @@
 rules are silent (or triaged) on the unchanged tree and its mutants fire."""
 
 CLAIMED = {
+    "C01": dict(
+        category="other",
+        design_ref="DESIGN.md section 3 / C01",
+        technique="static analysis: abstract interpretation over the clang CFG with linear guard facts, a small inequality "
+                  "prover, loop invariants by relational joins (E-BOUNDS); exception-escape analysis over the resolved "
+                  "call graph (E-EXC)",
+        text="Decides the memory-access and exception-type clauses: (R2/R3) in every function reachable from a parser "
+             "entry point or from a read-only accessor/decoder, every raw dereference, struct overlay, (pointer,length) "
+             "hand-over, iterator range, destination capacity, stream re-sizing, union-arm use and cursor counter update "
+             "is proved in bounds from the guards that dominate it (~800 obligations, incl. preconditions of internal "
+             "helpers checked at their call sites and the DNS section-index class invariant); (R4) only "
+             "malformed_packet escapes a parser and only libtins exceptions escape accessors/decoders, with residues "
+             "discharged by checked value bounds. Two genuine defects found this way (DNS::compose_name over-read, "
+             "DNS::update_dname) were repaired with fix: commits.",
+        note="NOT decided: termination bounds beyond loop shape, leaks, alignment/shift/overflow UB, allocation failure. "
+             "Assumes buffers < 4 GiB, no overflow in additions of 32-bit lengths, little-endian arm, std::vector move "
+             "semantics. update_records' content-dependent walk is a recorded known finding under C10.",
+    ),
     "C06": dict(
         category="other",
         design_ref="DESIGN.md section 3 / C06",
